@@ -365,6 +365,7 @@ pub fn generate(seed: u64, flavor: &str) -> RunSpec {
             victim: rng.below(threads),
             at: rng.range(1, 12) as u32,
             p: *rng.pick(&[100u32, 400]),
+            release: *rng.pick(&[0u32, 0, 2, 5, 9]),
         }
     } else {
         match rng.below(100) {
@@ -383,6 +384,7 @@ pub fn generate(seed: u64, flavor: &str) -> RunSpec {
                 victim: rng.below(threads),
                 at: rng.range(1, 30) as u32,
                 p: *rng.pick(&[100u32, 400]),
+                release: *rng.pick(&[0u32, 0, 1, 3, 6]),
             },
         }
     };
